@@ -6,9 +6,10 @@ from vlib import trajcorr
 ID = 'C11'
 GENS = ['units', 'consts']
 TARGETS = ['BC.Props.C11']
-PROP_FILES = ['BC/Props/C11.lean', 'BC/Lemmas/Filter.lean']
+PROP_FILES = ['BC/Props/C11.lean', 'BC/Lemmas/Filter.lean', 'BC/Lemmas/C11.lean', 'BC/Lemmas/C02.lean']
 THEOREMS = ['C11_iterate_state', 'C11_loop_on_physical_sequence', 'C11_limit_is_physical', 'C11_range_record', 'C11_extra_superset_step',
-            'C11_time_step_keeps_distance_rows']
+            'C11_time_step_keeps_distance_rows', 'C11_extra_superset_iterate', 'C11_extra_superset', 'C11_start_sim', 'C11_extra_superset_rows_tail',
+            'C11_extra_superset_rows']
 STATEMENTS = {
     'C11_iterate_state': 'state, wind sock and step by-products after one iteration = the physical step alone, whatever flags / steps / filter state / rows',
     'C11_loop_on_physical_sequence': 'induction over the loop: a completed run ends on physIter of the shot at the first state beyond the bound; only the prefix LENGTH depends on the request',
@@ -16,6 +17,11 @@ STATEMENTS = {
     'C11_range_record': 'a distance-trigger row = linear interpolation between previous and current state at the record distance; independent of mask, time step, event bookkeeping',
     'C11_extra_superset_step': 'plain (mask RANGE) and extra (mask ALL) filters side by side: equal but for the mask, same flags, same row whenever the plain one records; '
                                'a row recorded only by the extra one has no RANGE bit and a ZERO_UP/ZERO_DOWN/MACH bit (hypothesis: APEX bit clear on entry, as the loop guarantees)',
+    'C11_extra_superset_iterate': 'one loop iteration preserves the plain/extra simulation (or the extra run alone stops with ZeroDivisionError)',
+    'C11_extra_superset': 'induction over the loop: the plain rows are exactly the extra rows flagged RANGE, every other extra row is an event row',
+    'C11_start_sim': 'the two initial loop states of the same request are in the simulation',
+    'C11_extra_superset_rows_tail': 'whole results of integrate(fRANGE) vs integrate(fALL), closing row accounted for',
+    'C11_extra_superset_rows': 'plain run with >= 2 recorded rows: rows(plain) = rows(extra) filtered by RANGE, all other extra rows are ZERO_UP/ZERO_DOWN/MACH rows',
     'C11_time_step_keeps_distance_rows': 'a time step only adds records: same distance bookkeeping and event flags, same row whenever the filter without time step records',
 }
 TRUSTED = [
